@@ -208,6 +208,7 @@ pub struct ProcActor {
     pub stdout: BufReader<ChildStdout>,
     pub parked: Option<String>,
     pub finished: bool,
+    pub sends: Vec<(i64, bool)>,
 }
 
 impl ProcActor {
@@ -232,6 +233,13 @@ impl ProcActor {
                     if let Some(k) = l.strip_prefix("P ") {
                         self.parked = Some(k.to_string());
                         return self.parked.clone();
+                    }
+                    if let Some(r) = l.strip_prefix("S ") {
+                        let mut it = r.split_whitespace();
+                        let j = it.next().and_then(|x| x.parse().ok()).unwrap_or(0);
+                        let ok = it.next() == Some("1");
+                        self.sends.push((j, ok));
+                        continue;
                     }
                     if l == "F" {
                         self.finished = true;
@@ -285,6 +293,7 @@ pub fn spawn_child_sender(s: i64, npks: &[i64], tx: IpcSender<Vec<u8>>) -> ProcA
         stdout,
         parked: None,
         finished: false,
+        sends: Vec::new(),
     }
 }
 
@@ -306,6 +315,7 @@ pub fn msg_bytes(s: i64, j: i64, npk: i64) -> Vec<u8> {
 /// `vharness sched-child <server-name> <s> <npk,npk,..>`: sends its messages, parking at every
 /// system-call hook until the parent says go.
 pub fn child_main(args: &[String]) {
+    die_with_parent();
     verif::init();
     let name = args[0].clone();
     let s: i64 = args[1].parse().unwrap();
@@ -339,7 +349,8 @@ pub fn child_main(args: &[String]) {
         }
     })));
     for (j, npk) in npks.iter().enumerate() {
-        let _ = tx.send(msg_bytes(s, j as i64 + 1, *npk));
+        let ok = tx.send(msg_bytes(s, j as i64 + 1, *npk)).is_ok();
+        println!("S {} {}", j + 1, ok as i32);
     }
     drop(tx);
     free.store(true, std::sync::atomic::Ordering::SeqCst);
@@ -408,6 +419,7 @@ fn run_case(case: &Value, gates: &Gates) -> Value {
     verif::set_actor(-1);
     let (tx, rx) = ipc::channel::<Vec<u8>>().unwrap();
     let mut actors: HashMap<i64, Actor> = HashMap::new();
+    let send_results: Arc<Mutex<Vec<(i64, i64, bool)>>> = Arc::new(Mutex::new(Vec::new()));
 
     // child-process senders first (their bootstrap runs ungated)
     for (i, npks) in msgs.iter().enumerate() {
@@ -415,32 +427,7 @@ fn run_case(case: &Value, gates: &Gates) -> Value {
         if !procs.contains(&s) {
             continue;
         }
-        let (server, name) = IpcOneShotServer::<IpcSender<IpcSender<Vec<u8>>>>::new().unwrap();
-        let exe = std::env::current_exe().unwrap();
-        let mut child = Command::new(exe)
-            .arg("sched-child")
-            .arg(&name)
-            .arg(s.to_string())
-            .arg(npks.iter().map(|x| x.to_string()).collect::<Vec<_>>().join(","))
-            .stdin(Stdio::piped())
-            .stdout(Stdio::piped())
-            .spawn()
-            .expect("spawn sched-child");
-        let stdin = child.stdin.take().unwrap();
-        let stdout = BufReader::new(child.stdout.take().unwrap());
-        let (_r, btx) = server.accept().expect("accept");
-        btx.send(tx.clone()).unwrap();
-        drop(btx);
-        actors.insert(
-            s,
-            Actor::Proc(ProcActor {
-                child,
-                stdin,
-                stdout,
-                parked: None,
-                finished: false,
-            }),
-        );
+        actors.insert(s, Actor::Proc(spawn_child_sender(s, npks, tx.clone())));
     }
     // thread senders
     for (i, npks) in msgs.iter().enumerate() {
@@ -457,11 +444,13 @@ fn run_case(case: &Value, gates: &Gates) -> Value {
         let npks = npks.clone();
         let g = gates.clone();
         g.register(s);
+        let sres = send_results.clone();
         let h = std::thread::spawn(move || {
             verif::set_actor(s);
             g.set_tid(s);
             for (j, npk) in npks.iter().enumerate() {
-                let _ = txs.send(msg_bytes(s, j as i64 + 1, *npk));
+                let ok = txs.send(msg_bytes(s, j as i64 + 1, *npk)).is_ok();
+                sres.lock().unwrap().push((s, j as i64 + 1, ok));
             }
             drop(txs);
             g.finished(s);
@@ -484,7 +473,14 @@ fn run_case(case: &Value, gates: &Gates) -> Value {
         let h = std::thread::spawn(move || {
             verif::set_actor(0);
             g.set_tid(0);
+            let mut rx = Some(rx);
             for (i, mode) in plan.iter().enumerate() {
+                if mode == "drop" {
+                    // the receiving end goes away: close(); nothing is called afterwards
+                    drop(rx.take());
+                    break;
+                }
+                let rx = rx.as_ref().unwrap();
                 let d = Duration::from_micros((tmo.get(i).copied().unwrap_or(4.0) * 1000.0) as u64);
                 cur_call2.store(i, std::sync::atomic::Ordering::SeqCst);
                 let t0 = Instant::now();
@@ -613,7 +609,8 @@ fn run_case(case: &Value, gates: &Gates) -> Value {
             }
         }
     }
-    for _ in 0..plan.len() {
+    let ncalls = plan.iter().position(|m| m == "drop").unwrap_or(plan.len());
+    for _ in 0..ncalls {
         match rrx.recv_timeout(Duration::from_secs(10)) {
             Ok(v) => calls.push(v),
             Err(_) => {
@@ -622,19 +619,37 @@ fn run_case(case: &Value, gates: &Gates) -> Value {
             },
         }
     }
-    for (_, a) in actors.drain() {
+    let mut hung_sender = false;
+    for (s, a) in actors.drain() {
         match a {
             Actor::Thread(h) => {
                 if !hang {
-                    let _ = h.join();
+                    // a sender must come back too (a send that blocks forever is a violation)
+                    if s != 0 {
+                        match with_watchdog(10_000, move || h.join()) {
+                            Ok(_) => {},
+                            Err(()) => hung_sender = true,
+                        }
+                    } else {
+                        let _ = h.join();
+                    }
                 }
             },
             Actor::Proc(mut p) => {
-                // reap it in every case (also when it had reported being finished)
+                // read what it still reports, then reap it
+                while !p.finished {
+                    if p.settle().is_some() {
+                        p.free();
+                    }
+                }
+                for (j, ok) in p.sends.iter() {
+                    send_results.lock().unwrap().push((s, *j, *ok));
+                }
                 let _ = p.child.wait();
             },
         }
     }
-    json!({"id": id, "matched": matched, "why": why, "hang": hang, "calls": calls,
+    let sends: Vec<Value> = send_results.lock().unwrap().iter().map(|(s, j, ok)| json!([s, j, ok])).collect();
+    json!({"id": id, "matched": matched, "why": why, "hang": hang || hung_sender, "calls": calls, "sends": sends,
            "diverged_in_call": cur_call.load(std::sync::atomic::Ordering::SeqCst)})
 }
